@@ -1223,6 +1223,23 @@ fn gen_c09(ctx: &mut Ctx) {
 
 fn gen_c08(ctx: &mut Ctx) {
     let mut rng = Rng::new(ctx.seed, 8);
+    // Sign::create_page / width / height for every sign type: a blank page of the type's size with the given id
+    for t in 0..11usize {
+        for id in [0u8, 1, 0x7F, 0xFF, (t as u8).wrapping_mul(37)] {
+            let line = format!("CP {} {}", t, id);
+            let res = ctx.case(line.clone(), true, "create-page");
+            let (w, h) = SIGN_SIZES[t];
+            let total = total_bytes(w as u64, h as u64) as usize;
+            let data = 4 + (w as usize) * ((h as usize + 7) / 8);
+            let mut want = vec![0u8; total];
+            want[0] = id;
+            want[1] = 0x10;
+            for b in want[data..].iter_mut() {
+                *b = 0xFF;
+            }
+            ctx.monitor(res == format!("{} {} {}", w, h, hex_of_bytes(&want)), "C08-create-page", &line, &res[..res.len().min(80)]);
+        }
+    }
     let thorough = ctx.tier_thorough;
     let addrs: Vec<u16> = if thorough { vec![0, 3, 0x7F, 0x100, 0xFFFF] } else { vec![3, 0xFFFF] };
     let b = Bounds { pages: 1, pending_extra: 17, pending_pages: 1, chunks: 2, max_states: if thorough { 4000 } else { 700 } };
